@@ -202,6 +202,7 @@ pub fn replay(v: &Value) {
         "txgrid-c04" => crate::c04::replay(v),
         "txgrid-c05" => crate::c05::replay(v),
         "txgrid-c07" => crate::c07::replay(v),
+        "txgrid-c08" => crate::c08::replay(v),
         #[cfg(vls_verif)]
         "concur" => crate::concur::replay(v),
         _ => {
